@@ -235,6 +235,11 @@ theorem parseAttribute_eok (s : Stream) : EOk txt (parseAttribute T txt s) := by
   unfold parseAttribute
   eok using consumeQName_eok, consumeEq_eok, consumeQuote_eok, consumeChars_eok, consumeByte_eok
 
+theorem parsePseudoAttribute_eok (s : Stream) (name : Bytes) :
+    EOk txt (parsePseudoAttribute T txt s name) := by
+  unfold parsePseudoAttribute
+  eok using parseAttribute_eok
+
 theorem declConsumeSpaces_eok (s : Stream) : EOk txt (declConsumeSpaces T txt s) := by
   unfold declConsumeSpaces; eok
 
@@ -242,14 +247,14 @@ theorem declEnd_eok (s : Stream) : EOk txt (declEnd T txt s) := by
   unfold declEnd; eok using skipString_eok
 
 theorem declStandalone_eok (s : Stream) : EOk txt (declStandalone T txt s) := by
-  unfold declStandalone; eok using parseAttribute_eok, declEnd_eok
+  unfold declStandalone; eok using parsePseudoAttribute_eok, declEnd_eok
 
 theorem declEncoding_eok (s : Stream) : EOk txt (declEncoding T txt s) := by
-  unfold declEncoding; eok using parseAttribute_eok, declConsumeSpaces_eok, declStandalone_eok
+  unfold declEncoding; eok using parsePseudoAttribute_eok, declConsumeSpaces_eok, declStandalone_eok
 
 theorem parseDeclaration_eok (s : Stream) : EOk txt (parseDeclaration T txt s) := by
   unfold parseDeclaration
-  eok using advance_eok, declConsumeSpaces_eok, skipString_eok, parseAttribute_eok, declEncoding_eok
+  eok using advance_eok, declConsumeSpaces_eok, skipString_eok, parsePseudoAttribute_eok, declEncoding_eok
 
 theorem parseComment_eok (s : Stream) : EOkT txt (parseComment T txt s) := by
   unfold parseComment
@@ -257,7 +262,7 @@ theorem parseComment_eok (s : Stream) : EOkT txt (parseComment T txt s) := by
 
 theorem parsePi_eok (s : Stream) : EOkT txt (parsePi T txt s) := by
   unfold parsePi
-  eok using advance_eok, consumeName_eok, consumeChars_eok, skipString_eok
+  eok using advance_eok, consumeName_eok, declConsumeSpaces_eok, consumeChars_eok, skipString_eok
 
 theorem parseMisc_eok : ∀ fuel s, EOkT txt (parseMisc T txt fuel s) := by
   intro fuel
